@@ -1183,6 +1183,12 @@ class ServiceInstance:
         )
         self.announcer.queue_send(entry, remote=remote)
 
+    def _answer_find(self, remote: _T_SOCKADDR) -> None:
+        if not self._can_answer_offers:
+            # stopped since the FindService was received
+            return
+        self._send_offer(remote)
+
     def matches_find(
         self, entry: someip.header.SOMEIPSDEntry, addr: _T_SOCKADDR
     ) -> bool:
@@ -1390,7 +1396,7 @@ class ServiceAnnouncer:
                 asyncio.get_event_loop().call_soon(func, addr)
 
         for instance in matching_instances:
-            call(instance._send_offer)
+            call(instance._answer_find)
 
     def start(self, loop=None):
         for instance in self.announcing_services:
